@@ -18,7 +18,7 @@ func init() {
 		ID:  "C18",
 		Run: runC18,
 		Explanation: "Blocked-services pause schedule. Decided: (D1) validation precedes storage: both unmarshalers store a day range only after validate returned nil for that same range, validate delegates to the range checks and the whole-minute test, and the schedule's fields have no writers other than the unmarshalers, the constructors and Clone; " +
-			"(D2) weekday/field agreement: in the four (un)marshalers the element for weekday X is built from the field named X (start from start, end from end), all seven days are present, and the JSON and YAML key sets agree; (D3) [with: the schedule consulted is the Schedule of the same BlockedServices value whose IDs are applied, and a client's own list always replaces the global rules, paused or not — shared with C04-D2/C01-D9] the schedule is consulted for every request: blocked-service rules are added only on the 'not paused now' edge of Schedule.Contains(time.Now()) for the global and the per-client list; " +
+			"(D1, cont.) Clone gives the copy the receiver's time zone and day ranges; (D2) weekday/field agreement: in the four (un)marshalers the element for weekday X is built from the field named X (start from start, end from end), all seven days are present, and the JSON and YAML key sets agree; (D3) [with: the schedule consulted is the Schedule of the same BlockedServices value whose IDs are applied, and a client's own list always replaces the global rules, paused or not — shared with C04-D2/C01-D9] the schedule is consulted for every request: blocked-service rules are added only on the 'not paused now' edge of Schedule.Contains(time.Now()) for the global and the per-client list; " +
 			"(D4) the range test is the half-open conjunction start <= x && x < end, and the range validator lets a range through only if it is the zero range or passed every one of: start < 0, end < 0, start >= end, start >= 24h, end > 24h; (D5) Contains takes weekday, date and offset from the instant converted to the schedule's own time zone. " +
 			"and the offset tested is the wall-clock reading (Clock), not time elapsed since local midnight — the structural cause of the 23/25-hour-day defect that was found and repaired; (D6) a range bound given as a JSON number of milliseconds is scaled to nanoseconds in floating point and truncated once (no flooring before the whole-minute validation, no wrapping integer multiplication). Not decided: the arithmetic equality of Contains with wall-clock containment for every instant and zone (value-level).",
 		// D6 (JSON durations scaled in floating point, truncated once) is described at c18JSONDuration.
@@ -193,6 +193,45 @@ func c18Validation(c *Ctx) {
 			core.FuncKey(fn)+" writes a schedule's fields without going through the validating unmarshalers")
 	}
 	r.Floor("C18-D1", "schedule-writers", nW, 5)
+	// Clone hands out the same schedule: time zone and day ranges of the copy are the receiver's
+	if cl := p.Fn("(*schedule.Weekly).Clone"); cl != nil && len(cl.Params) == 1 {
+		recv := cl.Params[0]
+		got := map[string]bool{}
+		var bad []string
+		for _, f := range core.WithAnon(cl) {
+			for _, b := range f.Blocks {
+				for _, in := range b.Instrs {
+					st, ok := in.(*ssa.Store)
+					if !ok {
+						continue
+					}
+					fr, ok := core.FieldOfAddr(st.Addr)
+					if !ok || fr.Type != "schedule.Weekly" || (fr.Field != "location" && fr.Field != "days") {
+						continue
+					}
+					okSrc := true
+					n := 0
+					for _, leaf := range core.Leaves(core.ResolveCellLoad(st.Val)) {
+						n++
+						src, owner, isF := core.LoadedField(leaf)
+						if !isF || src.Type != "schedule.Weekly" || src.Field != fr.Field || core.ResolveCellLoad(owner) != ssa.Value(recv) {
+							okSrc = false
+						}
+					}
+					if okSrc && n > 0 {
+						got[fr.Field] = true
+					} else {
+						bad = append(bad, fr.Field+" at "+p.InstrPos(in))
+					}
+				}
+			}
+		}
+		r.Check(got["location"] && got["days"] && len(bad) == 0, "C18-D1", "clone-keeps-zone-and-ranges", p.FnPos(cl),
+			"the copy gets the receiver's time zone and day ranges",
+			"Clone does not copy the receiver's time zone or day ranges: a copied schedule (every client's own schedule is a copy) pauses at other instants than the configured one", bad...)
+	} else {
+		r.Undecided("C18-D1", "Clone", "-", "anchor not found")
+	}
 }
 
 var weekdays = []string{"Sunday", "Monday", "Tuesday", "Wednesday", "Thursday", "Friday", "Saturday"}
@@ -330,6 +369,97 @@ func c18Agreement(c *Ctx) {
 			}
 			return true
 		})
+		if len(seen) == 0 {
+			// the table form: a literal indexed by weekday that holds the address of the field of the same name,
+			// and a loop over it that writes days[index] through that address
+			tableOK := map[string]bool{}
+			var tableVars []string
+			ast.Inspect(fd.Body, func(n ast.Node) bool {
+				as, ok := n.(*ast.AssignStmt)
+				if !ok || len(as.Lhs) != 1 || len(as.Rhs) != 1 {
+					return true
+				}
+				cl, ok := as.Rhs[0].(*ast.CompositeLit)
+				if !ok {
+					return true
+				}
+				nEl := 0
+				for _, el := range cl.Elts {
+					kv, ok := el.(*ast.KeyValueExpr)
+					if !ok {
+						return true
+					}
+					wd, ok := isTimeWeekday(kv.Key)
+					if !ok {
+						return true
+					}
+					ue, ok := kv.Value.(*ast.UnaryExpr)
+					if !ok || ue.Op != token.AND {
+						return true
+					}
+					nEl++
+					r.Check(selName(ue.X) == wd, "C18-D2", fmt.Sprintf("%s:%s", fnName, wd), p.Pos(kv.Pos()),
+						"the slot of time."+wd+" is the address of field "+wd, fmt.Sprintf("the slot for time.%s points at field %q: that weekday is serialised with another day's range", wd, selName(ue.X)))
+					if selName(ue.X) == wd {
+						tableOK[wd] = true
+					}
+				}
+				if id, ok := as.Lhs[0].(*ast.Ident); ok && nEl > 0 {
+					tableVars = append(tableVars, id.Name)
+				}
+				return true
+			})
+			loopOK := false
+			ast.Inspect(fd.Body, func(n ast.Node) bool {
+				rs, ok := n.(*ast.RangeStmt)
+				if !ok {
+					return true
+				}
+				x, _ := rs.X.(*ast.Ident)
+				k, _ := rs.Key.(*ast.Ident)
+				v, _ := rs.Value.(*ast.Ident)
+				if x == nil || k == nil || v == nil {
+					return true
+				}
+				isTable := false
+				for _, tv := range tableVars {
+					if tv == x.Name {
+						isTable = true
+					}
+				}
+				if !isTable {
+					return true
+				}
+				// *v = <...>.days[k]...
+				for _, st := range rs.Body.List {
+					as, ok := st.(*ast.AssignStmt)
+					if !ok || len(as.Lhs) != 1 || len(as.Rhs) != 1 {
+						continue
+					}
+					se, ok := as.Lhs[0].(*ast.StarExpr)
+					if !ok {
+						continue
+					}
+					if id, ok := se.X.(*ast.Ident); !ok || id.Name != v.Name {
+						continue
+					}
+					ast.Inspect(as.Rhs[0], func(y ast.Node) bool {
+						if ie, ok := y.(*ast.IndexExpr); ok && selName(ie.X) == "days" {
+							if ki, ok := ie.Index.(*ast.Ident); ok && ki.Name == k.Name {
+								loopOK = true
+							}
+						}
+						return true
+					})
+				}
+				return true
+			})
+			if loopOK {
+				for wd := range tableOK {
+					seen[wd] = true
+				}
+			}
+		}
 		r.Check(len(seen) == 7, "C18-D2", fnName+":all-seven-days", p.Pos(fd.Pos()), "all seven weekdays are written", fmt.Sprintf("only %d weekdays are written when serialising", len(seen)))
 	}
 	// toDayConfigJSON: Start from start, End from end
